@@ -40,6 +40,29 @@ const HANG_SECS: u64 = 20;
 
 static COUNTER: AtomicUsize = AtomicUsize::new(0);
 
+/// A directory that lives on another device than its parent: a tmpfs is mounted on it.  Only possible in a private mount
+/// namespace (the driver is started through `unshare -m` for such scenarios); failure is a tool error.
+fn mount_tmpfs(p: &Path, bases: &Bases) {
+    use std::os::unix::ffi::OsStrExt;
+    let target = std::ffi::CString::new(p.as_os_str().as_bytes()).expect("path");
+    let fstype = std::ffi::CString::new("tmpfs").unwrap();
+    let rc = unsafe { libc::mount(fstype.as_ptr(), target.as_ptr(), fstype.as_ptr(), 0, std::ptr::null()) };
+    if rc != 0 {
+        eprintln!("replay_walk: cannot mount a tmpfs on {}: {}", p.display(), std::io::Error::last_os_error());
+        std::process::exit(2);
+    }
+    bases.mounts.lock().unwrap().push(p.to_path_buf());
+}
+
+fn unmount_all(mounts: &std::sync::Mutex<Vec<PathBuf>>) {
+    use std::os::unix::ffi::OsStrExt;
+    let mut g = mounts.lock().unwrap();
+    while let Some(p) = g.pop() {
+        let target = std::ffi::CString::new(p.as_os_str().as_bytes()).expect("path");
+        unsafe { libc::umount2(target.as_ptr(), libc::MNT_DETACH) };
+    }
+}
+
 #[derive(Clone)]
 struct Node {
     par: usize,
@@ -52,6 +75,8 @@ struct Node {
 struct Bases {
     b1: PathBuf,
     b2: PathBuf,
+    // mount points created for this job's tree (unmounted before its directories are removed)
+    mounts: std::sync::Mutex<Vec<PathBuf>>,
 }
 
 impl Bases {
@@ -73,7 +98,7 @@ impl Bases {
                 std::process::exit(2);
             }
         }
-        Bases { b1, b2 }
+        Bases { b1, b2, mounts: std::sync::Mutex::new(Vec::new()) }
     }
     fn rel(&self, p: &Path) -> String {
         if let Ok(r) = p.strip_prefix(&self.b1) {
@@ -88,6 +113,8 @@ impl Bases {
 
 impl Drop for Bases {
     fn drop(&mut self) {
+        // what lives in a mounted tmpfs goes away with it
+        unmount_all(&self.mounts);
         let _ = fs::remove_dir_all(&self.b1);
         let _ = fs::remove_dir_all(&self.b2);
     }
@@ -114,7 +141,12 @@ fn materialise(nodes: &[Node], bases: &Bases) {
         let i = ix + 1;
         let p = phys(nodes, bases, i);
         match n.kind.as_str() {
-            "dir" => fs::create_dir(&p).expect("mkdir"),
+            "dir" => {
+                fs::create_dir(&p).expect("mkdir");
+                if n.par != 0 && nodes[n.par - 1].dev != n.dev {
+                    mount_tmpfs(&p, bases);
+                }
+            }
             "file" if !n.big && i % 2 == 1 => {
                 // every other small "file" is a FIFO without a writer: a traversal lists entries, it must not open them
                 // (opening such a FIFO for reading would block for ever)
